@@ -140,7 +140,7 @@ def main(argv):
         extra = P.finish(ctx) if hasattr(P, "finish") else None
         from vf import cli as _cli
         for tool, n in _cli.STALE.items():
-            monitor.COUNTS[tool if tool == "relative_path_runs" else f"stale_output_planted:{tool}"] += n
+            monitor.COUNTS[tool if tool.endswith("_runs") else f"stale_output_planted:{tool}"] += n
         emit({"type": "summary", "shard": shard, "cases": ncases, "truncated": truncated,
               "counts": dict(monitor.COUNTS), "probes": dict(monitor.PROBES.status),
               "hashseed": ctx.hashseed, "extra": extra, "wall_s": time.monotonic() - t0})
